@@ -54,6 +54,11 @@ def sid_to_sid(sid: str | Sid) -> Sid:
 
     new_sid = Sid(from_factory=True)  # empty instance
 
+    # an untyped (non empty) string cannot take a query: it stays untyped, the query stays in the string
+    if query and string and not fields:
+        new_sid._init(string="{}?{}".format(string, query))
+        return new_sid
+
     # no query to handle, we return
     if not query:
         new_sid._init(string=string, type=_type, fields=fields)
